@@ -316,6 +316,31 @@ Section Lg.
      else fail "requested_scope_exact:logger_record").
 End Lg.
 
+(* ------------------------------------------------------------------------------------------------ PRACE *)
+(* Concurrent requests to one provider (two or three threads under the deterministic scheduler, the interleaving is part of
+   the case).  The observation lists, for the requests in script order (thread 0's, thread 1's, ...) and then for the same
+   requests repeated single-threaded after all threads have finished: the instance (numbered by first appearance in that
+   order), whether the instance produced telemetry, and the scope (and scope attributes) the instance reports.
+   Whatever the interleaving: same identity <=> same instance, every instance carries the requested scope, and it is
+   enabled exactly when the configurator says so.  In particular the provider registers one instance per identity. *)
+Record hobs := mk_hobs { h_class : nat; h_enabled : bool; h_scope : scope_id; h_attrs : attrs }.
+Fixpoint bools_eqb (a b : list bool) : bool :=
+  match a, b with
+  | [], [] => true
+  | x :: a', y :: b' => Bool.eqb x y && bools_eqb a' b'
+  | _, _ => false
+  end.
+Definition prace_scopes_ok (reqs : list lreq) (obs : list hobs) : bool :=
+  Nat.eqb (length obs) (length reqs) &&
+  forallb (fun qo => scope_eqb (h_scope (snd qo)) (q_scope (fst qo)) && attrs_equiv (h_attrs (snd qo)) (q_attrs (fst qo)))
+          (combine reqs obs).
+Definition spec_prace (r : rules) (d : bool) (threads : list (list lreq)) (obs : list hobs) : list tok :=
+  let script := concat threads in
+  let reqs := script ++ script in
+  check (nats_eqb (map h_class obs) (expected_indices lreq_eqb reqs)) "same_identity_same_instance:concurrent" ++
+  check (prace_scopes_ok reqs obs) "requested_scope_exact:concurrent" ++
+  check (bools_eqb (map h_enabled obs) (map (fun q => spec_config r d (q_scope q)) reqs)) "disabled_scope_silent:concurrent".
+
 (* ------------------------------------------------------------------------------------------------ single checks *)
 (* [obs] is the validator of this build (std::regex); [obs_nr] the hand-written variant of the same source file
    (None = not called: it reads name[0] before looking at the size, so the driver does not call it on an empty view) *)
